@@ -5,7 +5,7 @@
 Queues/events survive the pickle round trip of the worker line by registry id (as the OS handles do under spawn);
 each simulated process receives its own pickled copy of the line; completion callbacks run as separate participants.
 """
-import os, pickle, queue as _queue
+import json, os, pickle, queue as _queue
 from traceback import format_tb
 
 REG = {}          # id -> SimQueue / SimEvent of the current case
@@ -177,6 +177,15 @@ class InjectedError(Exception):
     def __reduce__(self):
         return (InjectedError, (self.item,))
 
+class PositionalError(Exception):
+    """a picklable error (it defines __reduce__) that cannot be rebuilt from its .args: two required constructor arguments,
+    one formatted message - like json.JSONDecodeError(msg, doc, pos)"""
+    def __init__(self, item, detail):
+        super().__init__(f"injected failure for item {item} ({detail})")
+        self.item, self.detail = item, detail
+    def __reduce__(self):
+        return (PositionalError, (self.item, self.detail))
+
 def who():
     s = STATE["sched"]
     if s is not None:
@@ -187,7 +196,8 @@ def who():
 KINDS = {"Injected": InjectedError, "AssertionError": AssertionError, "EOFError": EOFError, "BrokenPipeError": BrokenPipeError,
          "FileNotFoundError": FileNotFoundError, "ValueError": ValueError, "KeyError": KeyError, "TypeError": TypeError,
          "TimeoutError": TimeoutError, "RuntimeError": RuntimeError, "IndexError": IndexError, "AttributeError": AttributeError,
-         "ImportError": ImportError, "OSError": OSError, "StopIteration-like": LookupError}
+         "ImportError": ImportError, "OSError": OSError, "StopIteration-like": LookupError,
+         "Positional": PositionalError, "JSONDecodeError": json.JSONDecodeError}
 
 def make_exc(kind, item):
     if kind == "die":
@@ -200,6 +210,8 @@ def make_exc(kind, item):
         time.sleep(0.05)
         os._exit(3)
     cls = KINDS[kind]
+    if cls is PositionalError: return cls(item, "detail")
+    if cls is json.JSONDecodeError: return cls(f"injected failure for item {item}", "{}", 0)
     return cls(item) if cls is InjectedError else cls(f"injected failure for item {item}")
 
 ALIASES = {"None": None, "empty-str": "", "empty-tuple": (), "zero-float": 0.0, "False": False}   # legal items that are falsy / None
